@@ -239,6 +239,23 @@ fn check_program(t: &mut Tape, ctx: &Ctx) -> Outcome {
             directs.push(vec![Stmt::Cont]);
         }
     }
+    // a subroutine of the program called twice from one direct line (under TRON each entry into a
+    // numbered line is traced, also when only direct code ran in between)
+    let mut subs: Vec<u16> = vec![];
+    for l in &g.prog.lines {
+        walk(&l.stmts, &mut |s| {
+            if let Stmt::Gosub(n) = s {
+                subs.push(*n)
+            }
+        });
+    }
+    subs.sort();
+    subs.dedup();
+    if !subs.is_empty() && !o.stop && t.chance(1, 3) {
+        let s1 = subs[t.below(subs.len())];
+        let s2 = if t.chance(1, 2) { s1 } else { subs[t.below(subs.len())] };
+        directs.push(vec![Stmt::Gosub(s1), Stmt::Gosub(s2)]);
+    }
     if tron {
         directs.push(vec![Stmt::Troff]);
     }
